@@ -1,0 +1,12 @@
+//go:build verif
+
+// Contracts for package byteslice, checked by /verif/gvc (see /verif/DESIGN.md).
+
+package byteslice
+
+// index maps a size to the smallest class whose capacity 2^idx is at least the size.
+//@ func index(n uint32) uint32
+//@   mode bv
+//@   requires n >= 1
+//@   ensures res <= 32 && pow2(res) >= n && (res == 0 || pow2(res - 1) < n)
+//@   ensures n <= 2147483648 ==> res <= 31
